@@ -1,11 +1,17 @@
 /-
-  C08 at the registry stage: evaluation of the model on the types that show that the two `optimize_type`
-  passes `merge_models` applies to a merged model are NOT enough.
-  (`flattenUnion` is compiled by well-founded recursion, so the steps are evaluated by `simp` with the
-  defining equations, as in `C02RHelpersExample.lean`.)
+  C08 at the registry stage: evaluation of the model on concrete inputs.
+  * `Old`: the `_optimize_union` category split BEFORE the repair (a plain fold: a union hidden under an `Optional`
+    member is one opaque member).  History of the defect: the merged field needs THREE passes, `merge_models`
+    applies two.
+  * the repaired model: the same input is normalised; what one pass can still leave behind (a second `Unknown`,
+    `int` next to `float` when `int` occurs twice) and the second pass repairs.
+  (`flattenUnion` is compiled by well-founded recursion, so the steps are evaluated by `simp` with the defining
+  equations, as in `C02RHelpersExample.lean`.)
 -/
 import J2M.Sem
 import J2M.Registry
+import J2M.Pipeline
+import J2M.Proofs.SplitWorklist
 namespace J2M.TwoPass.W
 open J2M
 
@@ -14,7 +20,68 @@ def cfgW : GenCfg := ⟨⟨15, 20⟩, ⟨[], [], []⟩, [], []⟩
 set_option maxRecDepth 100000
 set_option linter.unusedSimpArgs false
 
-/-- `Optional[Union[bool, List[Optional[Union[int, Literal['a']]]]]]` — a normal form (`fA_nf`) -/
+/-! ## 0. the old split, and `optimize_type` over it (history) -/
+
+namespace Old
+mutual
+/-- `optimize_type` with the old category split (`SplitW.splitFold`: the fold over the members as they are) -/
+def optimize (cfg : GenCfg) (e : EqEnv) : Nat → Ty → Except PyErr Ty
+  | 0, _ => .error .outOfFuel
+  | fuel + 1, t =>
+    match t with
+    | .obj fs => do
+      let fs' ← fs.mapM (fun (kv : String × Ty) => do
+        let v ← optimize cfg e fuel kv.2
+        pure (kv.1, v))
+      pure (.obj fs')
+    | .union ts => optimizeUnion cfg e fuel ts
+    | .opt x => do
+      let t' ← optimize cfg e fuel x
+      match t' with
+      | .opt y => pure (.opt y)
+      | y => pure (.opt y)
+    | .list x => do pure (.list (← optimize cfg e fuel x))
+    | .dict x => do pure (.dict (← optimize cfg e fuel x))
+    | .tuple ts => do pure (.tuple (← ts.mapM (optimize cfg e fuel)))
+    | .lit ov vs => if ov || vs.isEmpty then pure .str else pure t
+    | t => pure t
+def optimizeUnion (cfg : GenCfg) (e : EqEnv) : Nat → List Ty → Except PyErr Ty
+  | 0, _ => .error .outOfFuel
+  | fuel + 1, members => do
+    let s := SplitW.splitFold cfg.reg members
+    let other := s.other
+    let other := if other.any Ty.isInt && other.any Ty.isFloat then removeFirst Ty.isInt other else other
+    let other ← (if s.toMerge.isEmpty then pure other else do
+      let m ← mergeFieldSets cfg.lit e s.toMerge
+      pure (other ++ [.obj m]))
+    let other := if s.lists.isEmpty then other else other ++ [.list (mkUnion cfg.lit s.lists)]
+    let other := if s.dicts.isEmpty then other else other ++ [.dict (mkUnion cfg.lit s.dicts)]
+    let other ← (if s.strTypes.any Ty.isStr then pure (other ++ [.str])
+      else if s.strTypes.isEmpty then pure other
+      else do
+        let kinds := s.strTypes.filterMap (fun t => match t with | .ser k => some k | _ => none)
+        let r ← resolve cfg.reg kinds (kinds.length + 2)
+        match r with
+        | [k] => pure (other ++ [.ser k])
+        | [] => .error .stopIteration
+        | _ => pure (other ++ [.str]))
+    let types ← other.mapM (optimize cfg e fuel)
+    match types with
+    | [] => .error .indexError
+    | [t] => pure t
+    | types =>
+      let types := if types.any Ty.isUnknown then removeFirst Ty.isUnknown types else types
+      let optional := types.any Ty.isNull
+      let types := types.filter (fun t => !t.isNull)
+      let mt := match mkUnionMembers cfg.lit types with
+        | [] => .unknown
+        | [t] => t
+        | us => .union us
+      pure (if optional then .opt mt else mt)
+end
+end Old
+
+/-- `Optional[Union[bool, List[Optional[Union[int, Literal['a']]]]]]` — a normal form -/
 def fA : Ty := .opt (.union [.bool, .list (.opt (.union [.int, .lit false ["a"]]))])
 /-- `List[float]` — a normal form -/
 def fB : Ty := .list .float
@@ -23,99 +90,101 @@ def fB : Ty := .list .float
     `Union[Optional[Union[bool, List[Optional[Union[int, 'a']]]]], List[float]]` -/
 def tW : Ty := .union [fA, fB]
 
-/-- after ONE pass: `Optional[Union[bool, List[Optional[Union[int, 'a']]], List[float]]]` (two lists) -/
+/-- old code, after ONE pass: `Optional[Union[bool, List[Optional[Union[int, 'a']]], List[float]]]` (two lists) -/
 def tW1 : Ty := .opt (.union [.bool, .list (.opt (.union [.int, .lit false ["a"]])), .list .float])
-/-- after TWO passes: `Optional[Union[bool, List[Optional[Union[int, float, 'a']]]]]` (`int` next to `float`) -/
+/-- old code, after TWO passes: `Optional[Union[bool, List[Optional[Union[int, float, 'a']]]]]` -/
 def tW2 : Ty := .opt (.union [.bool, .list (.opt (.union [.int, .float, .lit false ["a"]]))])
-/-- after THREE passes: `Optional[Union[bool, List[Optional[Union[float, 'a']]]]]` -/
+/-- `Optional[Union[bool, List[Optional[Union[float, 'a']]]]]` — the normal form -/
 def tW3 : Ty := .opt (.union [.bool, .list (.opt (.union [.float, .lit false ["a"]]))])
 
-theorem pass1 (e : EqEnv) (n : Nat) : optimize cfgW e (n + 16) tW = .ok tW1 := by
-  simp +decide [tW, tW1, fA, fB, optimize, optimizeUnion, splitMembers, Ty.isInt, Ty.isFloat, Ty.isStr,
+theorem old_pass1 (e : EqEnv) (n : Nat) : Old.optimize cfgW e (n + 16) tW = .ok tW1 := by
+  simp +decide [tW, tW1, fA, fB, Old.optimize, Old.optimizeUnion, SplitW.splitFold, Ty.isInt, Ty.isFloat, Ty.isStr,
     Ty.isUnknown, Ty.isNull, bind, Except.bind, pure, Except.pure, mkUnion, mkUnionMembers, flattenUnion,
     handleType, hashStr, hashStrs, removeFirst, cfgW, insertUniq, mkLit]
 
-theorem pass2 (e : EqEnv) (n : Nat) : optimize cfgW e (n + 16) tW1 = .ok tW2 := by
-  simp +decide [tW1, tW2, optimize, optimizeUnion, splitMembers, Ty.isInt, Ty.isFloat, Ty.isStr,
+theorem old_pass2 (e : EqEnv) (n : Nat) : Old.optimize cfgW e (n + 16) tW1 = .ok tW2 := by
+  simp +decide [tW1, tW2, Old.optimize, Old.optimizeUnion, SplitW.splitFold, Ty.isInt, Ty.isFloat, Ty.isStr,
     Ty.isUnknown, Ty.isNull, bind, Except.bind, pure, Except.pure, mkUnion, mkUnionMembers, flattenUnion,
     handleType, hashStr, hashStrs, removeFirst, cfgW, insertUniq, mkLit]
 
-theorem pass3 (e : EqEnv) (n : Nat) : optimize cfgW e (n + 16) tW2 = .ok tW3 := by
-  simp +decide [tW2, tW3, optimize, optimizeUnion, splitMembers, Ty.isInt, Ty.isFloat, Ty.isStr,
+theorem old_pass3 (e : EqEnv) (n : Nat) : Old.optimize cfgW e (n + 16) tW2 = .ok tW3 := by
+  simp +decide [tW2, tW3, Old.optimize, Old.optimizeUnion, SplitW.splitFold, Ty.isInt, Ty.isFloat, Ty.isStr,
     Ty.isUnknown, Ty.isNull, bind, Except.bind, pure, Except.pure, mkUnion, mkUnionMembers, flattenUnion,
     handleType, hashStr, hashStrs, removeFirst, cfgW, insertUniq, mkLit]
 
-theorem pass4 (e : EqEnv) (n : Nat) : optimize cfgW e (n + 16) tW3 = .ok tW3 := by
-  simp +decide [tW3, optimize, optimizeUnion, splitMembers, Ty.isInt, Ty.isFloat, Ty.isStr,
-    Ty.isUnknown, Ty.isNull, bind, Except.bind, pure, Except.pure, mkUnion, mkUnionMembers, flattenUnion,
-    handleType, hashStr, hashStrs, removeFirst, cfgW, insertUniq, mkLit]
+theorem tW2_not_nf : nf tW2 = false := by decide
+theorem tW3_nf : nf tW3 = true := by decide
 
+/-! ## 1. the repaired model on types -/
 
-/-! ### the pipeline on one JSON document -/
+/-- the repaired split: ONE pass normalises the merged field -/
+theorem new_pass1 (e : EqEnv) (n : Nat) : optimize cfgW e (n + 16) tW = .ok tW3 := by
+  simp +decide [tW, tW3, fA, fB, optimize, optimizeUnion, splitMembers, splitMembersAux, Ty.size, Ty.sizeList,
+    Ty.isInt, Ty.isFloat, Ty.isStr, Ty.isUnknown, Ty.isNull, bind, Except.bind, pure, Except.pure, mkUnion,
+    mkUnionMembers, flattenUnion, handleType, hashStr, hashStrs, removeFirst, cfgW, insertUniq, mkLit]
 
-def oW : GenOracles := ⟨fun _ _ => some false, fun _ _ => some false, StrOracle.default⟩
+/-- `Union[List[int], List[Any], List[Optional[Any]]]`: what `merge_field_sets` makes of `List[Optional[Any]]`,
+    `List[Any]`, `List[int]` -/
+def tU : Ty := .union [.list .int, .list .unknown, .list (.opt .unknown)]
+/-- ONE pass: `List[Optional[Union[int, Any]]]` — `types.remove(Unknown)` removes one of two `Unknown`s -/
+def tU1 : Ty := .list (.opt (.union [.int, .unknown]))
+def tU2 : Ty := .list (.opt .int)
 
-/-- `{"p": {"g": 1, "f": [1.5]}, "q": [{"g": 1, "f": [1, "a", null]}, {"g": 1, "f": true}, {"g": 1}]}` -/
-def sW : Json :=
-  .obj [("p", .obj [("g", .int 1), ("f", .arr [.float 0])]),
-        ("q", .arr [.obj [("g", .int 1), ("f", .arr [.int 1, .str "a", .null])],
-                    .obj [("g", .int 1), ("f", .bool true)],
-                    .obj [("g", .int 1)]])]
+theorem tU_pass1 (e : EqEnv) (n : Nat) : optimize cfgW e (n + 9) tU = .ok tU1 := by
+  simp +decide [tU, tU1, optimize, optimizeUnion, splitMembers, splitMembersAux, Ty.size, Ty.sizeList,
+    Ty.isInt, Ty.isFloat, Ty.isStr, Ty.isUnknown, Ty.isNull, bind, Except.bind, pure, Except.pure, mkUnion,
+    mkUnionMembers, flattenUnion, handleType, hashStr, hashStrs, removeFirst, cfgW, insertUniq, mkLit]
 
-def o1 : Fields := [("g", .int), ("f", .list (.union [.int, .null, .lit false ["a"]]))]
-def o2 : Fields := [("g", .int), ("f", .bool)]
-def o3 : Fields := [("g", .int)]
-def cW : Fields := [("p", .obj [("g", .int), ("f", .list .float)]), ("q", .list (.union [.obj o1, .obj o2, .obj o3]))]
+theorem tU_pass2 (e : EqEnv) (n : Nat) : optimize cfgW e (n + 9) tU1 = .ok tU2 := by
+  simp +decide [tU1, tU2, optimize, optimizeUnion, splitMembers, splitMembersAux, Ty.size, Ty.sizeList,
+    Ty.isInt, Ty.isFloat, Ty.isStr, Ty.isUnknown, Ty.isNull, bind, Except.bind, pure, Except.pure, mkUnion,
+    mkUnionMembers, flattenUnion, handleType, hashStr, hashStrs, removeFirst, cfgW, insertUniq, mkLit]
 
-theorem convertW : convert cfgW oW sW = .ok cW := by
-  simp +decide [sW, cW, o1, o2, o3, convert, detect, detectList, convertFields, anyRegexMatches, allKeysMatch,
-    cfgW, oW, detectStr, detectStr.go, wrapElems, mkLit, mkUnionMembers, flattenUnion, handleType, hashStr,
-    hashStrs, hashFields, insertUniq, bind, Except.bind, pure, Except.pure, List.foldlM]
+theorem tU1_not_nf : nf tU1 = false := by decide
+theorem tU2_nf : nf tU2 = true := by decide
 
+/-- `Union[float, Optional[Union[int, 'a']], int]`: `merge_field_sets` of `int`, `Optional[Union[int, 'a']]`, `float` -/
+def tI : Ty := .union [.float, .opt (.union [.int, .lit false ["a"]]), .int]
+/-- ONE pass: `Optional[Union[float, int, 'a']]` — `other_types.remove(int)` removes one of two `int`s -/
+def tI1 : Ty := .opt (.union [.float, .int, .lit false ["a"]])
+def tI2 : Ty := .opt (.union [.float, .lit false ["a"]])
 
-/-- the comparison environment of `generate` -/
-def eW : EqEnv := ⟨oW.str, fun i => "Model#" ++ i, fun _ => none, 1000000⟩
-theorem eqW1 : eW.eq .int .int = .ok true := by rfl
-theorem eqW2 : eW.eq (.list (.union [.int, .null, .lit false ["a"]])) .bool = .ok false := by rfl
+theorem tI_pass1 (e : EqEnv) (n : Nat) : optimize cfgW e (n + 9) tI = .ok tI1 := by
+  simp +decide [tI, tI1, optimize, optimizeUnion, splitMembers, splitMembersAux, Ty.size, Ty.sizeList,
+    Ty.isInt, Ty.isFloat, Ty.isStr, Ty.isUnknown, Ty.isNull, bind, Except.bind, pure, Except.pure, mkUnion,
+    mkUnionMembers, flattenUnion, handleType, hashStr, hashStrs, removeFirst, cfgW, insertUniq, mkLit]
 
-theorem mergeTop : mergeFieldSets cfgW.lit eW [cW] = .ok cW := by
-  simp +decide [cW, mergeFieldSets, mergeFieldSets.go, mergeStep, mergeOne, Fields.get?, Fields.set,
-    Fields.keys, Fields.has, Ty.isOpt, bind, Except.bind, pure, Except.pure]
+theorem tI_pass2 (e : EqEnv) (n : Nat) : optimize cfgW e (n + 9) tI1 = .ok tI2 := by
+  simp +decide [tI1, tI2, optimize, optimizeUnion, splitMembers, splitMembersAux, Ty.size, Ty.sizeList,
+    Ty.isInt, Ty.isFloat, Ty.isStr, Ty.isUnknown, Ty.isNull, bind, Except.bind, pure, Except.pure, mkUnion,
+    mkUnionMembers, flattenUnion, handleType, hashStr, hashStrs, removeFirst, cfgW, insertUniq, mkLit]
 
-theorem mergeQ : mergeFieldSets cfgW.lit eW [o1, o2, o3] =
-    .ok [("g", .int), ("f", .opt (.union [.bool, .list (.union [.int, .null, .lit false ["a"]])]))] := by
-  simp +decide [o1, o2, o3, mergeFieldSets, mergeFieldSets.go, mergeStep, mergeOne, Fields.get?, Fields.set,
-    Fields.keys, Fields.has, Ty.isOpt, eqW1, eqW2, bind, Except.bind, pure, Except.pure, Ty.unionMembers,
-    mkUnionMembers, flattenUnion, handleType, hashStr, Ty.isStr, cfgW]
+theorem tI1_not_nf : nf tI1 = false := by decide
+theorem tI2_nf : nf tI2 = true := by decide
 
-theorem opt_p (e : EqEnv) (n : Nat) :
-    optimize cfgW e (n + 4) (.obj [("g", .int), ("f", .list .float)]) = .ok (.obj [("g", .int), ("f", .list .float)]) := by
-  simp +decide [optimize, bind, Except.bind, pure, Except.pure]
+/-- at most one literal value, one registered pseudo-type `K` -/
+def cfgS : GenCfg := ⟨⟨1, 20⟩, ⟨["K"], [], []⟩, [], []⟩
 
-theorem opt_f (e : EqEnv) (n : Nat) :
-    optimize cfgW e (n + 12) (.opt (.union [.bool, .list (.union [.int, .null, .lit false ["a"]])])) = .ok fA := by
-  simp +decide [fA, optimize, optimizeUnion, splitMembers, Ty.isInt, Ty.isFloat, Ty.isStr,
-    Ty.isUnknown, Ty.isNull, bind, Except.bind, pure, Except.pure, mkUnion, mkUnionMembers, flattenUnion,
-    handleType, hashStr, hashStrs, removeFirst, cfgW, insertUniq, mkLit]
+/-- `Union[Literal['a'], Optional[Union[K, Literal['b']]]]` under a literal limit of one value -/
+def tS : Ty := .union [.lit false ["a"], .opt (.union [.ser "K", .lit false ["b"]])]
+/-- ONE pass: `Optional[Union[K, str]]` — the folded literal overflows in the final `DUnion`, after the string
+    types were resolved: `str` next to a pseudo-type -/
+def tS1 : Ty := .opt (.union [.ser "K", .str])
+def tS2 : Ty := .opt .str
 
-theorem opt_obj (n : Nat) :
-    optimize cfgW eW (n + 14)
-      (.obj [("g", .int), ("f", .opt (.union [.bool, .list (.union [.int, .null, .lit false ["a"]])]))]) =
-      .ok (.obj [("g", .int), ("f", fA)]) := by
-  rw [optimize]
-  simp only [List.mapM_cons, List.mapM_nil, bind, Except.bind, pure, Except.pure, opt_f eW (n + 1)]
-  simp [optimize, pure, Except.pure]
+theorem tS_pass1 (e : EqEnv) (n : Nat) : optimize cfgS e (n + 9) tS = .ok tS1 := by
+  simp +decide [tS, tS1, optimize, optimizeUnion, splitMembers, splitMembersAux, Ty.size, Ty.sizeList,
+    Ty.isInt, Ty.isFloat, Ty.isStr, Ty.isUnknown, Ty.isNull, bind, Except.bind, pure, Except.pure, mkUnion,
+    mkUnionMembers, flattenUnion, handleType, hashStr, hashStrs, removeFirst, cfgS, insertUniq, mkLit, resolve,
+    dedupStr, replacedIn]
 
-theorem opt_q (n : Nat) :
-    optimize cfgW eW (n + 20) (.list (.union [.obj o1, .obj o2, .obj o3])) = .ok (.list (.obj [("g", .int), ("f", fA)])) := by
-  rw [optimize]
-  simp only [bind, Except.bind]
-  rw [optimize, optimizeUnion]
-  have hs : splitMembers cfgW.reg [.obj o1, .obj o2, .obj o3] = { toMerge := [o1, o2, o3] } := by
-    simp [splitMembers]
-  simp only [hs, bind, Except.bind, mergeQ, pure, Except.pure]
-  simp +decide only [List.isEmpty_nil, List.isEmpty_cons, List.any_nil, List.nil_append, Bool.false_and, if_true,
-    if_false, Bool.false_eq_true, List.mapM_cons, List.mapM_nil, bind, Except.bind, pure, Except.pure,
-    opt_obj (n + 3)]
+theorem tS_pass2 (e : EqEnv) (n : Nat) : optimize cfgS e (n + 9) tS1 = .ok tS2 := by
+  simp +decide [tS1, tS2, optimize, optimizeUnion, splitMembers, splitMembersAux, Ty.size, Ty.sizeList,
+    Ty.isInt, Ty.isFloat, Ty.isStr, Ty.isUnknown, Ty.isNull, bind, Except.bind, pure, Except.pure, mkUnion,
+    mkUnionMembers, flattenUnion, handleType, hashStr, hashStrs, removeFirst, cfgS, insertUniq, mkLit, resolve,
+    dedupStr, replacedIn]
+
+theorem tS1_not_nf : nf tS1 = false := by decide
+theorem tS2_nf : nf tS2 = true := by decide
 
 end J2M.TwoPass.W
